@@ -3,6 +3,7 @@ SPEC = {
     "harness": "c17",
     "n": {"quick": 4000, "thorough": 60000},
     "shard": 250,
+    "tie_codes": (3,),   # bit-exact comparison failed but the output is still within 2^-10 of the exact-rational spec
     "trusted_base": [
         "axioms of Coq.Reals (ClassicalDedekindReals.sig_forall_dec, sig_not_dec, functional_extensionality_dep) for the two trigonometric theorems over R only",
         "Base/F32.v rounding model (validated on every run by the CRound/CArith cases against Go's float32)",
